@@ -96,6 +96,7 @@ def build(shape, focus, assign, ranks, cfg, ctx='alone', opts=None, tag=''):
     dom = ['N(0)', 'N(1)', 'N(9)'] if po else ['V(0)', 'V(1)', 'V(2)']
     if len(assign) >= 5:
         dom = ['N(0)', 'N(9)'] if po else ['V(0)', 'V(1)']
+    probe12 = (0, 1, 9, 10, 11) if len(assign) >= 12 else None
     tys, fattrs, doms, plan = [], [], [], []
     salt = len(assign) * 7 + focus
     for vi, f in enumerate(shape.variants):
@@ -110,7 +111,10 @@ def build(shape, focus, assign, ranks, cfg, ctx='alone', opts=None, tag=''):
             own = field_meta(ch, rk, carrier, cfg, salt, o.get('order'), o.get('comma', False), o.get('sp'))
             t.append('I' if ch in 'ix' else sc)
             a.append(place(own, 'Hash(ignore)', ctx))
-            d.append(['I(0)', 'I(1)'] if ch in 'ix' else dom)
+            if probe12 and vi == focus and fi not in probe12 and ch not in 'ix':
+                d.append([dom[0]])
+            else:
+                d.append(['I(0)', 'I(1)'] if ch in 'ix' else dom)
             pl.append((ch, rk if rk is not None else MIN + fi, fi))
         tys.append(t)
         fattrs.append(a)
@@ -208,6 +212,17 @@ def generate(tier):
                             continue
                         for cfg in (('PO', 'OP_P') if tier == 'quick' else CFGS):
                             cases.append(build(shape, focus, ''.join(assign), tuple(ranks), cfg, tag='|wide'))
+    # very wide: 12 fields, one deviating field at positions 0, 1, 9, 10, 11
+    for style in 'tn':
+        fl = S.Fields(style, 12)
+        for shape, focus in ((S.Shape('struct', [fl]), 0), (S.Shape('enum', [S.Fields('u'), fl]), 1)):
+            for w in (0, 1, 9, 10, 11):
+                for ch, rk in (('i', None), ('m', None), ('c', -1), ('c', 5), ('l', 5), ('x', None)):
+                    assign = ['c'] * 12
+                    ranks = [None] * 12
+                    assign[w], ranks[w] = ch, rk
+                    for cfg in ('PO', 'OP_O'):
+                        cases.append(build(shape, focus, ''.join(assign), tuple(ranks), cfg, tag='|vwide'))
     # spelling x parameter order x trailing comma, fully, on one- and two-field elements
     for style in 'tn':
         for shape, focus in placements(S.Fields(style, 2), 'quick')[:2]:
